@@ -18,7 +18,7 @@ ALL = ["C%02d" % i for i in range(1, 21)]
 
 
 RELATED = {
-    "C01": ["C01", "C02", "C03"], "C02": ["C02", "C01", "C03", "C20"], "C03": ["C03", "C01", "C06", "C08"],
+    "C01": ["C01", "C02", "C03", "C06", "C08"], "C02": ["C02", "C01", "C03", "C20"], "C03": ["C03", "C01", "C06", "C08"],
     "C04": ["C04", "C02", "C10", "C11", "C12", "C20"], "C05": ["C05", "C13"], "C06": ["C06", "C08", "C19"], "C07": ["C07", "C14", "C18"],
     "C08": ["C08", "C06", "C09"], "C09": ["C09", "C08"], "C10": ["C10"], "C11": ["C11"], "C12": ["C12"],
     "C13": ["C13", "C05"], "C14": ["C14", "C07"], "C15": ["C15"], "C16": ["C16"], "C17": ["C17", "C18"], "C18": ["C18", "C17"],
